@@ -564,13 +564,22 @@ void op_run_t(size_t K, Cur &c, Out &o)
     int tr = (int)c.nat();
     auto script = c.flts();
     auto aff = c.flts();
+    // optional: the shape the caller's in-membership container has before the call
+    // (0: N x K, 1: K x N, 2: N*K x 1, 3: empty, 4: (N+1) x K); the library never validates it
+    size_t vshape = c.p < c.t.size() ? c.nat() : 0;
 
     size_t N = utils::get_num_vertices(r.starts, r.ends);
     Matrix<double> u(N, K), v(N, K);
     {
         std::vector<double> fill(N * K, prior);
         u = Matrix<double>(N, K, fill);
-        v = Matrix<double>(N, K, fill);
+        size_t vr = N, vc = K;
+        if (vshape == 1) { vr = K; vc = N; }
+        else if (vshape == 2) { vr = N * K; vc = 1; }
+        else if (vshape == 3) { vr = 0; vc = 0; }
+        else if (vshape == 4) { vr = N + 1; vc = K; }
+        std::vector<double> vfill(vr * vc, prior);
+        v = Matrix<double>(vr, vc, vfill);
     }
     std::vector<V> labels;
     utils::RandomGenerator<> rng{(std::time_t)seed};
@@ -586,6 +595,12 @@ void op_run_t(size_t K, Cur &c, Out &o)
         o.list("labels", labels);
         o.dl("u", u.get_data());
         o.dl("v", v.get_data());
+        {
+            auto ud = u.dims();
+            auto vd = v.dims();
+            o.kv("udims", std::to_string(std::get<0>(ud)) + "," + std::to_string(std::get<1>(ud)));
+            o.kv("vdims", std::to_string(std::get<0>(vd)) + "," + std::to_string(std::get<1>(vd)));
+        }
         o.dl("aff", aff);
         o.list("iters", rep.vec_iter);
         std::vector<std::string> rs(rep.vec_term_reason.begin(), rep.vec_term_reason.end());
